@@ -1,12 +1,13 @@
 INIT Init
 NEXT Next
+VIEW View
 CHECK_DEADLOCK FALSE
 CONSTANTS
-  Keys <- KeysBig
-  Alias <- AliasBig
-  IntVal <- IntValBig
+  Keys <- KeysCloNe
+  Alias <- AliasCloNe
+  IntVal <- IntValClo
   Travs <- AllTravs
   LenEnabled = TRUE
-  MaxSteps = 100
+  MaxSteps = 3
   ViewHist = 0
-  EmitAll = FALSE
+  EmitAll = TRUE
